@@ -24,50 +24,149 @@ import (
 
 // TestVerifC02Consts is the "translator": it reports the constants the model depends on, taken from
 // the source of the tree under test (compile-time constant + the window expression of findOffset).
-func TestVerifC02Consts(t *testing.T) { vfC02Consts(t) }
+func TestVerifC02Consts(t *testing.T) {
+	if !vfC02Consts(t) {
+		t.Fatal("cannot find the read window of findOffset (readContentSlice(byteOff, <constant window>))")
+	}
+}
 
-func vfC02Consts(t *testing.T) {
+// vfC02WindowBytes evaluates the constant byte window that findOffset hands to readContentSlice: integer literals,
+// utf8.UTFMax, runeOffsetFrequency, constants declared anywhere in contentprovider.go (package level or local, e.g.
+// `const sampleWindowBytes = 3 * runeOffsetFrequency`), variables defined once with `:=` from such an expression,
+// + - * / and parentheses; of min(a, b, ...) the constant arguments count.
+func vfC02WindowBytes() (int, bool) {
 	fset := token.NewFileSet()
 	f, err := parser.ParseFile(fset, "contentprovider.go", nil, 0)
 	if err != nil {
-		t.Fatal(err)
+		return 0, false
 	}
-	factor := -1
+	defs := map[string]ast.Expr{}
+	ndefs := map[string]int{}
 	ast.Inspect(f, func(n ast.Node) bool {
-		call, ok := n.(*ast.CallExpr)
-		if !ok {
-			return true
-		}
-		sel, ok := call.Fun.(*ast.SelectorExpr)
-		if !ok || sel.Sel.Name != "readContentSlice" || len(call.Args) != 2 {
-			return true
-		}
-		ast.Inspect(call.Args[1], func(m ast.Node) bool {
-			be, ok := m.(*ast.BinaryExpr)
-			if !ok || be.Op != token.MUL {
+		switch d := n.(type) {
+		case *ast.GenDecl:
+			if d.Tok != token.CONST && d.Tok != token.VAR {
 				return true
 			}
-			for _, side := range [][2]ast.Expr{{be.X, be.Y}, {be.Y, be.X}} {
-				if id, ok := side[1].(*ast.Ident); !ok || id.Name != "runeOffsetFrequency" {
+			for _, sp := range d.Specs {
+				vs, ok := sp.(*ast.ValueSpec)
+				if !ok || len(vs.Names) != len(vs.Values) {
 					continue
 				}
-				switch v := side[0].(type) {
-				case *ast.BasicLit:
-					fmt.Sscanf(v.Value, "%d", &factor)
-				case *ast.SelectorExpr:
-					if x, ok := v.X.(*ast.Ident); ok && x.Name == "utf8" && v.Sel.Name == "UTFMax" {
-						factor = utf8.UTFMax
+				for i, nm := range vs.Names {
+					defs[nm.Name] = vs.Values[i]
+					ndefs[nm.Name]++
+				}
+			}
+		case *ast.AssignStmt:
+			if len(d.Lhs) == len(d.Rhs) {
+				for i, l := range d.Lhs {
+					if id, ok := l.(*ast.Ident); ok {
+						if d.Tok == token.DEFINE {
+							defs[id.Name] = d.Rhs[i]
+						}
+						ndefs[id.Name]++
 					}
 				}
 			}
-			return true
-		})
+		}
 		return true
 	})
-	if factor < 0 {
-		t.Fatal("cannot find the read window of findOffset (readContentSlice(byteOff, K*runeOffsetFrequency))")
+	var eval func(e ast.Expr, depth int) (int, bool)
+	eval = func(e ast.Expr, depth int) (int, bool) {
+		if depth > 20 {
+			return 0, false
+		}
+		switch v := e.(type) {
+		case *ast.BasicLit:
+			var x int
+			if v.Kind == token.INT {
+				if _, err := fmt.Sscanf(v.Value, "%v", &x); err == nil {
+					return x, true
+				}
+			}
+		case *ast.ParenExpr:
+			return eval(v.X, depth+1)
+		case *ast.Ident:
+			if v.Name == "runeOffsetFrequency" {
+				return runeOffsetFrequency, true
+			}
+			if d, ok := defs[v.Name]; ok && ndefs[v.Name] == 1 {
+				return eval(d, depth+1)
+			}
+		case *ast.SelectorExpr:
+			if x, ok := v.X.(*ast.Ident); ok && x.Name == "utf8" && v.Sel.Name == "UTFMax" {
+				return utf8.UTFMax, true
+			}
+		case *ast.CallExpr: // conversions uint32(...), int(...); min(...) of constants
+			if id, ok := v.Fun.(*ast.Ident); ok && len(v.Args) == 1 && (strings.HasPrefix(id.Name, "uint") || strings.HasPrefix(id.Name, "int")) {
+				return eval(v.Args[0], depth+1)
+			}
+			if id, ok := v.Fun.(*ast.Ident); ok && id.Name == "min" && len(v.Args) > 0 {
+				best, any := 0, false
+				for _, a := range v.Args {
+					if x, ok := eval(a, depth+1); ok && (!any || x < best) {
+						best, any = x, true
+					}
+				}
+				return best, any
+			}
+		case *ast.BinaryExpr:
+			x, ok1 := eval(v.X, depth+1)
+			y, ok2 := eval(v.Y, depth+1)
+			if ok1 && ok2 {
+				switch v.Op {
+				case token.MUL:
+					return x * y, true
+				case token.ADD:
+					return x + y, true
+				case token.SUB:
+					return x - y, true
+				case token.QUO:
+					if y != 0 {
+						return x / y, true
+					}
+				}
+			}
+		}
+		return 0, false
 	}
-	vfInfo(map[string]any{"consts": true, "rune_offset_frequency": runeOffsetFrequency, "find_offset_window_factor": factor})
+	window, found := 0, false
+	ast.Inspect(f, func(n ast.Node) bool {
+		fd, ok := n.(*ast.FuncDecl)
+		if !ok || fd.Name.Name != "findOffset" || fd.Body == nil {
+			return true
+		}
+		ast.Inspect(fd.Body, func(m ast.Node) bool {
+			call, ok := m.(*ast.CallExpr)
+			if !ok {
+				return true
+			}
+			sel, ok := call.Fun.(*ast.SelectorExpr)
+			if !ok || sel.Sel.Name != "readContentSlice" || len(call.Args) != 2 {
+				return true
+			}
+			if x, ok := eval(call.Args[1], 0); ok && !found {
+				window, found = x, true
+			}
+			return true
+		})
+		return false
+	})
+	return window, found
+}
+
+// vfC02Consts emits the translator record; false when the window could not be evaluated (the record then says so and the
+// test goes on: the oracle still evaluates the property on the tree under test).
+func vfC02Consts(t *testing.T) bool {
+	w, ok := vfC02WindowBytes()
+	if !ok {
+		vfInfo(map[string]any{"consts_missing": true, "rune_offset_frequency": runeOffsetFrequency})
+		return false
+	}
+	vfInfo(map[string]any{"consts": true, "rune_offset_frequency": runeOffsetFrequency, "find_offset_window_factor": w / runeOffsetFrequency,
+		"find_offset_window_bytes": w})
+	return true
 }
 
 func vfC02RuneText(r *vfRand, nrunes int) []byte {
@@ -118,11 +217,12 @@ func vfC02RuneBytes(doc []byte, r int) int {
 }
 
 func TestVerifC02(t *testing.T) {
-	vfC02Consts(t) // the "translator" record first: prop.py regenerates coq/Generated/RangesConsts.v from it
+	vfC02Consts(t) // the "translator" record first: prop.py regenerates coq/Generated/RangesConsts.v from it (never fatal here)
 	r := vfNewRand(vfSeed())
 	n := vfN(60)
 	ctxb := context.Background()
 	vfC02FindCorners(t)
+	vfC02SearchCorners(t)
 
 	for it := 0; it < n; it++ {
 		// ---------------- (A) gatherMatches on generated candidate sets
@@ -416,6 +516,18 @@ func TestVerifC02(t *testing.T) {
 				if err != nil {
 					t.Fatalf("search %s: %v", qsp.desc, err)
 				}
+				if qsp.sub != "" { // every document holding an occurrence is reported (a wrong byte offset makes matchContent fail and drops it)
+					rep := map[string]bool{}
+					for _, fm := range res.Files {
+						rep[fm.FileName] = true
+					}
+					for j := range docs {
+						if occ := vfC02Occ(raw[j], []byte(qsp.sub), qsp.cs); len(occ) > 0 && !rep[docs[j].Name] {
+							vfOracleFail(fmt.Sprintf("search:chunks=%v:document-missing", chunkMode), "single substring: a document holding an occurrence is not reported at all",
+								map[string]any{"docs": vfC03DocsReplay(docs), "query": qsp.desc, "ctx": ctx, "file": docs[j].Name, "want": fmt.Sprint(occ)})
+						}
+					}
+				}
 				for _, fm := range res.Files {
 					c := byName[fm.FileName]
 					var rs [][2]int
@@ -496,21 +608,7 @@ func TestVerifC02(t *testing.T) {
 							}
 						}
 					} else if qsp.sub != "" {
-						pat := []byte(qsp.sub)
-						for from := 0; from+len(pat) <= len(c); {
-							i := -1
-							for k := from; k+len(pat) <= len(c); k++ {
-								if (qsp.cs && bytes.Equal(c[k:k+len(pat)], pat)) || (!qsp.cs && bytes.EqualFold(c[k:k+len(pat)], pat)) {
-									i = k
-									break
-								}
-							}
-							if i < 0 {
-								break
-							}
-							want = append(want, [2]int{i, i + len(pat)})
-							from = i + len(pat)
-						}
+						want = vfC02Occ(c, []byte(qsp.sub), qsp.cs)
 						if fmt.Sprint(want) != fmt.Sprint(rs) {
 							fail("substring-leftmost", fmt.Sprintf("single substring: ranges are not the successive leftmost non-overlapping occurrences %v", want))
 						}
@@ -682,6 +780,176 @@ func vfC02FindCorners(t *testing.T) {
 	}
 	for _, docs := range shards {
 		vfC02FindCases(t, docs, all)
+	}
+}
+
+// vfC02Occ: the successive leftmost non-overlapping occurrences of pat in c (byte ranges) — the scanning oracle of a
+// single-substring query (C02_substr_ranges_leftmost).
+func vfC02Occ(c, pat []byte, caseSensitive bool) [][2]int {
+	var want [][2]int
+	for from := 0; from+len(pat) <= len(c); {
+		i := -1
+		for k := from; k+len(pat) <= len(c); k++ {
+			if (caseSensitive && bytes.Equal(c[k:k+len(pat)], pat)) || (!caseSensitive && bytes.EqualFold(c[k:k+len(pat)], pat)) {
+				i = k
+				break
+			}
+		}
+		if i < 0 {
+			break
+		}
+		want = append(want, [2]int{i, i + len(pat)})
+		from = i + len(pat)
+	}
+	return want
+}
+
+// deterministic corner shards evaluated END TO END through Search (run once per test run): a substring match preceded, inside its
+// sampling window, by 75..99 runes of 1, 2, 3 and 4 bytes (more than 75 four-byte runes need more than 3 bytes per rune of read
+// window); matches starting right before / on / right after a multiple of runeOffsetFrequency; mixed 1/2/3/4-byte rune runs; the
+// same for file names.  Every document as a shard of its own (the document starts on a sample) and all of them in one shard (the
+// samples fall anywhere).  Oracle: the reported ranges of the single-substring query are the successive leftmost non-overlapping
+// occurrences found by scanning, in LineMatches and ChunkMatches mode, and every document holding an occurrence is reported.
+// The match starts also go through findOffset directly (G_samples / G_find cases for the model).
+func vfC02SearchCorners(t *testing.T) {
+	const needle = "needle"
+	ctxb := context.Background()
+	widths := []string{"a", "é", "世", "😀"}
+	var docs, nameDocs []Document
+	for wi, w := range widths {
+		for _, p := range []int{60, 75, 76, 77, 92, 98, 99, 100, 101, 102, 199, 200, 201, 250} {
+			c := strings.Repeat(w, p) + needle + strings.Repeat(w, 3) + "Needle\n" + needle + " tail\n"
+			docs = append(docs, Document{Name: fmt.Sprintf("w%d_p%d.txt", wi+1, p), Content: []byte(c)})
+		}
+		for _, p := range []int{76, 99, 100, 101, 180} {
+			nameDocs = append(nameDocs, Document{Name: strings.Repeat(w, p) + needle + "_" + strings.Repeat(w, 2) + needle + fmt.Sprintf("%d.go", wi), Content: []byte("x\n")})
+		}
+	}
+	{ // mixed runs of 1..4-byte runes, a needle every 37 runes (lands before, on and after sampling points)
+		var b []byte
+		nr := 0
+		for k := 0; nr < 900; k++ {
+			w := widths[(k*7+k/3)%4]
+			run := 1 + (k*5)%9
+			if k%11 == 10 {
+				run = 70 + k%29 // a long run of one width
+			}
+			for j := 0; j < run; j++ {
+				b = append(b, w...)
+				nr++
+				if nr%37 == 0 {
+					b = append(b, needle...)
+					nr += len(needle)
+				}
+			}
+		}
+		docs = append(docs, Document{Name: "mixed.txt", Content: b})
+		cut := func(k int) int { // the next rune boundary at or after byte k
+			for !utf8.RuneStart(b[k]) {
+				k++
+			}
+			return k
+		}
+		nameDocs = append(nameDocs, Document{Name: "m/" + string(b[:cut(300)]) + needle + string(b[cut(300):cut(420)]) + needle, Content: []byte("y\n")})
+	}
+	type shard struct {
+		name string
+		docs []Document
+	}
+	shards := []shard{{"all", docs}, {"names", nameDocs}}
+	for _, d := range docs {
+		shards = append(shards, shard{d.Name, []Document{d}})
+	}
+	starts := func(c []byte) []int { // rune offsets of the needle occurrences (case-insensitive)
+		var rs []int
+		for _, x := range vfC02Occ(c, []byte(needle), false) {
+			rs = append(rs, utf8.RuneCount(c[:x[0]]))
+		}
+		return rs
+	}
+	for _, sh := range shards {
+		s := vfC02FindCases(t, sh.docs, func(filename bool, nr []int) [][2]int {
+			var qs [][2]int
+			for idx, d := range sh.docs {
+				src := d.Content
+				if filename {
+					src = []byte(d.Name)
+				}
+				for _, rr := range starts(src) {
+					qs = append(qs, [2]int{idx, rr})
+				}
+			}
+			if len(qs) > 60 { // the "all" shard: keep the model evaluation small, every 4th point
+				var q2 [][2]int
+				for i := 0; i < len(qs); i += 4 {
+					q2 = append(q2, qs[i])
+				}
+				qs = q2
+			}
+			return qs
+		})
+		for _, fileName := range []bool{false, true} {
+			for _, cs := range []bool{true, false} {
+				q := &query.Substring{Pattern: needle, CaseSensitive: cs, Content: !fileName, FileName: fileName}
+				for _, chunkMode := range []bool{false, true} {
+					res, err := s.Search(ctxb, q, &zoekt.SearchOptions{ChunkMatches: chunkMode})
+					if err != nil {
+						t.Fatalf("search corner %s: %v", sh.name, err)
+					}
+					got := map[string][][2]int{}
+					for _, fm := range res.Files {
+						rs := [][2]int{}
+						for _, cm := range fm.ChunkMatches {
+							for _, rg := range cm.Ranges {
+								if cm.FileName == fileName {
+									rs = append(rs, [2]int{int(rg.Start.ByteOffset), int(rg.End.ByteOffset)})
+								}
+							}
+						}
+						for _, lm := range fm.LineMatches {
+							for _, f := range lm.LineFragments {
+								if lm.FileName == fileName {
+									rs = append(rs, [2]int{int(f.Offset), int(f.Offset) + f.MatchLength})
+								}
+							}
+						}
+						sort.Slice(rs, func(a, b int) bool { return rs[a][0] < rs[b][0] })
+						got[fm.FileName] = rs
+					}
+					for _, d := range sh.docs {
+						src := d.Content
+						if fileName {
+							src = []byte(d.Name)
+						}
+						want := vfC02Occ(src, []byte(needle), cs)
+						rs, reported := got[d.Name]
+						kind := "content"
+						if fileName {
+							kind = "filename"
+						}
+						replay := map[string]any{"shard": sh.name, "docs": vfC03DocsReplay(sh.docs), "query": fmt.Sprintf("substr(%q,cs=%v,filename=%v)", needle, cs, fileName),
+							"chunks": chunkMode, "file": d.Name, "ranges": fmt.Sprint(rs), "want": fmt.Sprint(want), "reported": reported}
+						if len(sh.docs) > 1 { // keep the replay small: the failing document and its predecessor (the sample may lie there)
+							for j := range sh.docs {
+								if sh.docs[j].Name == d.Name {
+									replay["docs"] = vfC03DocsReplay(sh.docs[max(0, j-1) : j+1])
+									replay["docs_before"] = max(0, j-1)
+									replay["note"] = "documents of shard " + sh.name + " built by vfC02SearchCorners (deterministic); shown: the failing document and its predecessor"
+								}
+							}
+						}
+						switch {
+						case len(want) > 0 && !reported:
+							vfOracleFail(fmt.Sprintf("search-corner:chunks=%v:%s-document-missing", chunkMode, kind),
+								"single substring: a document holding an occurrence is not reported at all", replay)
+						case fmt.Sprint(want) != fmt.Sprint(rs) && (reported || len(want) > 0):
+							vfOracleFail(fmt.Sprintf("search-corner:chunks=%v:%s-ranges", chunkMode, kind),
+								fmt.Sprintf("single substring: the reported ranges are not the successive leftmost non-overlapping occurrences %v", want), replay)
+						}
+					}
+				}
+			}
+		}
 	}
 }
 
